@@ -1,6 +1,6 @@
 SPECIFICATION Spec
 CONSTANTS
-  Names = {"u1"}
+  Names = {"alice"}
   Pws = {"Secret1", "secret1", "LONG"}
   LongPws = {"LONG"}
   ExtraCands = {"", "SECRET1", "Secret1 ", "wrong"}
